@@ -134,6 +134,8 @@ def decide(gd, idx, cls, tier, rng):
         pr, k, removed = run_history(gd, h, limit)
         if pr is None:
             res["stats"]["budget_histories"] = res["stats"].get("budget_histories", 0) + 1
+            if res["stats"]["budget_histories"] >= 2 and not res["stats"]["histories"]:
+                break                     # a game whose solves do not finish within the budget is not usable here: stop paying for it
             continue
         res["stats"]["histories"] += 1
         res["stats"]["solves"] += k
@@ -175,11 +177,12 @@ def decide_batch(idx, seed):
                 if not (an.stopping and an.finals_absorbing and max(an.tmax) < 300):
                     gd = None
         pool[nm] = games.to_solver(gd)
+        budget_total = locals().get("budget_total", 0) + 2 * sc.limit_for(an)
     res = {"idx": idx, "verdict": "held", "stats": {"batch_pools": 1, "batch_runs": 0}, "tags": ["BATCH"], "key": "batch%d" % idx, "nontrivial": True}
 
     def run(d):
         res["stats"]["batch_runs"] += 1
-        with monitors.budget(3 * 10 ** 8):
+        with monitors.budget(budget_total):
             try:
                 return _strip(cr.run_games(d))
             finally:
